@@ -1,3 +1,4 @@
+import ComposeVerif.Lemmas.AuditCmd
 import ComposeVerif.Lemmas.Graph
 import ComposeVerif.Neg.C10
 import ComposeVerif.Lemmas.Consistency
